@@ -597,9 +597,12 @@ func init() {
 		},
 	}
 	properties["C17"] = &property{
-		explanation: "Decides the structural clauses of C17: RESET.fields — in Reset(n) of FFT, CmplxFFT, DCT, DST and QuarterWaveFFT every struct field is reassigned or handed to the fftpack initialiser on every path and workspaces are resliced to lengths depending on n alone ('the same answer regardless of what lengths it was previously Reset with'); WINDOW.pointwise — every window function of dsp/window stores to seq[J] a value that reads no element other than seq[J]; WINDOW.sibling — the weight expression of each real window and of its Complex sibling are identical after inlining locals and constants (14 pairs); TWIN.bounds — the bounds-checked and unchecked fftpack array accessors have identical bodies once guards are set aside. Found and repaired: Tukey.TransformComplex mirrored the left taper into the right. Does NOT decide the butterflies, twiddle factors, scaling, dst/src aliasing or closed-form window values (value-level).",
+		explanation: "Decides the structural clauses of C17: RESET.fields — in Reset(n) of FFT, CmplxFFT, DCT, DST and QuarterWaveFFT every struct field is reassigned or handed to the fftpack initialiser on every path and workspaces are resliced to lengths depending on n alone ('the same answer regardless of what lengths it was previously Reset with'); WINDOW.pointwise — every window function of dsp/window stores to seq[J] a value that reads no element other than seq[J]; WINDOW.sibling — the weight expression of each real window and of its Complex sibling are identical after inlining locals and constants (14 pairs); TWIN.bounds — the bounds-checked and unchecked fftpack array accessors have identical bodies once guards are set aside. Found and repaired: Tukey.TransformComplex mirrored the left taper into the right. Does NOT decide the butterflies, twiddle factors, scaling, dst/src aliasing or closed-form window values (value-level). RESET.noleak — none of the 11 slice-returning exported methods of the dsp/fourier and dsp/transform types returns a slice that shares storage with a field of the receiver (directly or through a local assigned from one), so a result the caller keeps cannot be rewritten by the next call on the same transform object.",
 		assumptions: commonAssumptions,
 		run: func(tier string, res *core.Result) {
+			na := dspx.RunNoAlias(def)
+			na.Floor("slice_returning_methods", 9)
+			res.Merge(na)
 			pu := paramuse.Run(def, core.Pkgs("./dsp/..."))
 			pu.Floor("parameters", 270)
 			res.Merge(pu)
@@ -685,6 +688,8 @@ func dump(argv []string) {
 		res = idindex.Run(def, core.Pkgs(argv[1:]...))
 	case "constfold":
 		res = constfold.Run(def, core.Pkgs(argv[1:]...))
+	case "noalias":
+		res = dspx.RunNoAlias(def)
 	case "global":
 		res = globalx.Run(def, core.Pkgs(argv[1:]...), globalx.Options{})
 	case "fallback":
